@@ -92,7 +92,7 @@ claim('C07', 'other',
       'Proved kernel + bounded: statement contracts on the xsi:nil block and the xsi:type block of XsdElement.raw_decode (nilled <=> nillable and true and no '
       'fixed and empty; error <=> lookup fails or the named type is blocked) and XsdType.is_blocked are proved for all inputs; derivation, abstract, block '
       'defaults, substitution groups are covered by a bounded contract against a reference decision procedure over flag products (mixed two-step derivation chains included); '
-      'XsdComplexType.is_derived is under contract for the complex-content chain (a step of the other method never ends the search); XsdElement.get_attributes is under contract (a simple governing type gets the declaration's attribute group only when it IS the declared type); XSD 1.1 type alternatives on inherited attributes and the attribute sets admitted under every xsi:type are bounded families.',
+      'XsdComplexType.is_derived is under contract for the complex-content chain (a step of the other method never ends the search); XsdElement.get_attributes is under contract (a simple governing type gets the attribute group of the declaration only when it IS the declared type); XSD 1.1 type alternatives on inherited attributes and the attribute sets admitted under every xsi:type are bounded families.',
       'is_derived and get_instance_type are uninterpreted in the proofs and exercised only by the bounded part; XPath tests of type alternatives are elementpath.', 'DESIGN.md 5/C07')
 claim('C08', 'other',
       'Proved kernel + bounded: IdentityCounter.increase (exactly one duplicate error per repeated tuple), KeyrefCounter.increase, reset and '
